@@ -53,3 +53,29 @@ def explore(exe, args, env=None, max_runs=100000, jobs=8, rng=None, sample=None)
                     for c in range(1, ch[i][1]):
                         stack.append(base[:i] + [c])
     return runs
+
+
+PTHREAD_WRAPS = ["pthread_mutex_init", "pthread_mutex_destroy", "pthread_mutex_lock", "pthread_mutex_unlock", "pthread_cond_init", "pthread_cond_destroy",
+                 "pthread_cond_wait", "pthread_cond_timedwait", "pthread_cond_signal", "pthread_cond_broadcast", "pthread_create", "pthread_join"]
+
+
+def build_pthread_level(wd, name, driver, srcs, extra=()):
+    """A scheduler-driven driver built with the runtime's OWN pthread configuration: the deterministic scheduler sits under the
+    pthread functions (bind/c/sched_pthread.c, linked with --wrap), so it does not depend on how the tree spells its thread macros."""
+    import common
+    from common import BINDC, REPO, run
+    exe = os.path.join(wd, name)
+    cc = ["gcc", "-O1", "-g", "-w", "-fsanitize=address", "-I", os.path.join(REPO, "w2c2"), "-I", BINDC, *extra, "-c"]
+    objs = []
+    for src, more in [(os.path.join(BINDC, "sched.c"), ["-D%s=__real_%s" % (f, f) for f in PTHREAD_WRAPS]),
+                      (os.path.join(BINDC, "sched_pthread.c"), []),
+                      (driver, ["-DWASM_THREADS_PTHREADS", "-include", os.path.join(BINDC, "sched_api.h")])] + [(s_, ["-DWASM_THREADS_PTHREADS"]) for s_ in srcs]:
+        ob = os.path.join(wd, "%s-%s.o" % (name, os.path.basename(src)[:-2]))
+        rc, out, err = run(cc + more + [src, "-o", ob], timeout=300)
+        if rc != 0:
+            raise common.MachineryError("cannot build %s (pthread level): %s" % (name, err[-2000:]))
+        objs.append(ob)
+    rc, out, err = run(["gcc", "-fsanitize=address", *objs, "-Wl," + ",".join("--wrap=" + f for f in PTHREAD_WRAPS), "-o", exe, "-lpthread", "-lm"], timeout=300)
+    if rc != 0:
+        raise common.MachineryError("cannot link %s (pthread level): %s" % (name, err[-2000:]))
+    return exe
